@@ -176,7 +176,9 @@ def cases(tier, seed):
     for rdesc, n_final, r in entries:
         heavy = len(r.transitions) > 24
         for align in alignments_for(n_final, tier):
-            if tier == "quick" and align == "aa" and (len(r.transitions) > 16 or n_final > 3):
+            n_topologies = len({t.topology for t in r.transitions})
+            if tier == "quick" and align == "aa" and (
+                    len(r.transitions) > (40 if n_topologies > 1 else 16) or n_final > 3):
                 continue  # left to the thorough tier (cost of unfolding the rotation sums)
             if tier == "quick" and align.startswith("dpd") and len(r.transitions) > 24:
                 continue
@@ -187,6 +189,8 @@ def cases(tier, seed):
                 dyns = ["none", "bw", "bwff"]
             if align != "none" and (heavy or tier == "quick"):
                 dyns = ["none"] if tier == "quick" else ["none", "bw"]
+                if align.startswith("dpd") and len(r.transitions) <= 16:
+                    dyns = ["none", "bwff"]  # daughter masses enter the expression
             for dyn in dyns:
                 out.append({"reaction": rdesc, "align": align, "dyn": dyn, "seed": seed, "tier": tier})
     return out
